@@ -1,6 +1,6 @@
 """Replay battery for C04 (results, feedback events, error isolation) and C05 (complete fires once, after the causal closure):
 every program of 1-3 handlers for one event drawn from {return value, return None, raise Exception, raise a BaseException that is
-not an Exception, generator yielding a value, generator raising after its first yield, fire a child event (which may itself fire a
+not an Exception, raise KeyboardInterrupt / SystemExit() (mapped to stop(): no result, no error), generator yielding a value, generator raising after its first yield, fire a child event (which may itself fire a
 grandchild, be cancelled, or raise)}, with every combination of the success / failure / complete flags, driven by tick() on the
 real code.  Oracle from the statements: results in handler order (one -> the value, several -> list), one `exception` (and one
 `<name>_failure` iff requested) per raising handler with the remaining handlers still run, `<name>_success` once iff requested and
@@ -14,7 +14,8 @@ class Boom(BaseException):
     pass
 
 
-KINDS = ['ret', 'none', 'raise', 'raise_base', 'gen', 'gen_raise', 'child', 'child_cancelled', 'child_raises', 'child_complete', 'falsy']
+KINDS = ['ret', 'none', 'raise', 'raise_base', 'gen', 'gen_raise', 'child', 'child_cancelled', 'child_raises', 'child_complete', 'falsy',
+         'kbint', 'sysexit']      # interrupted handlers: mapped to stop() (a no-op here: tick-driven manager), they have no result
 
 
 def build(kinds, flags):
@@ -71,6 +72,10 @@ def build(kinds, flags):
                 raise ValueError('h%d' % i)
             if kind == 'raise_base':
                 raise Boom('h%d' % i)
+            if kind == 'kbint':
+                raise KeyboardInterrupt
+            if kind == 'sysexit':
+                raise SystemExit
             if kind in ('gen', 'gen_raise'):
                 def g():
                     yield None
